@@ -325,7 +325,9 @@ def _describe(case):
 # ---------------------------------------------------------------------------------------------
 # Batch
 
-BATCH_OPS = ('iloc', 'loc_col', 'neg', 'mul', 'sum', 'mean', 'min', 'max', 'apply_T', 'apply_fillna', 'isin', 'sort_index', 'sort_values', 'clip', 'head', 'tail', 'cumsum', 'abs', 'transpose', 'drop', 'shift', 'count', 'std')
+BATCH_OPS = ('iloc', 'loc_col', 'neg', 'mul', 'sum', 'mean', 'min', 'max', 'apply_T', 'apply_fillna', 'isin', 'sort_index', 'sort_values', 'clip', 'head', 'tail', 'cumsum', 'abs', 'transpose', 'drop', 'shift', 'count', 'std',
+             # keyword options forwarded to every member: each flag and each axis on its own and combined
+             'roll_c_ic', 'roll_i_ii', 'roll_ic_ic', 'roll_ic_ii', 'roll_ic', 'shift_c', 'sort_desc_cols')
 
 
 @st.composite
@@ -387,6 +389,17 @@ def _apply_chain(x, chain, rep=None):
                 return y.drop.iloc[0] if is_frame else y
             if op == 'shift':
                 return y.shift(1, fill_value=-1) if is_frame else y
+            if op.startswith('roll_'):
+                if not is_frame:
+                    return y
+                kw = {'roll_c_ic': dict(columns=1, include_columns=True), 'roll_i_ii': dict(index=1, include_index=True),
+                      'roll_ic_ic': dict(index=1, columns=1, include_columns=True), 'roll_ic_ii': dict(index=1, columns=-1, include_index=True),
+                      'roll_ic': dict(index=-1, columns=1)}[op]
+                return y.roll(**kw)
+            if op == 'shift_c':
+                return y.shift(columns=1, fill_value=-1) if is_frame else y
+            if op == 'sort_desc_cols':
+                return y.sort_columns(ascending=False) if is_frame else y
             if op == 'count':
                 return y.count() if is_frame else y
             if op == 'std':
